@@ -5,7 +5,7 @@ import Qryn.Proofs.WfBuild
 /-! C10 for the legacy Tempo search: the statement `TempoService.Search` sends is closed for EVERY list of tags (names and
     values any byte strings), every window / duration / limit and version flag; hypothesis: the two table names are closed
     text (configuration). -/
-namespace Qryn.Tempo
+namespace Qryn.TempoSegs
 open Qryn Qryn.Sql Qryn.Lex
 
 theorem litSafe_digit (n : Nat) : litSafe (Time.digit n) = true := by
@@ -257,4 +257,4 @@ theorem wf_tagValuesSel (table : String) (tag : Bytes) (ht : rawE (b table) = tr
   simp only [tagValuesSel, wfSel, wfWiths, wfSelBody, wfExprs, wfExpr, wfJoins, and_, eq, ht, Bool.and_eq_true, Bool.and_true]
   decide +kernel
 
-end Qryn.Tempo
+end Qryn.TempoSegs
